@@ -25,6 +25,16 @@ func builtinGlobalEval(call FunctionCall) Value {
 		// Not a direct call to eval, so we enter the global ExecutionContext
 		rt.enterGlobalScope()
 		defer rt.leaveScope()
+	} else if rt.scope != nil {
+		// A direct eval runs in the context of its caller and enters no scope
+		// of its own, but it nests like a call: count it against the stack
+		// depth limit, or eval code that evals itself never hits the limit.
+		if rt.stackLimit != 0 && rt.scope.depth+1 >= rt.stackLimit {
+			panic(rt.panicRangeError("Maximum call stack size exceeded"))
+		}
+		scop := rt.scope
+		scop.depth++
+		defer func() { scop.depth-- }()
 	}
 	returnValue := rt.cmplEvaluateNodeProgram(program, true)
 	if returnValue.isEmpty() {
